@@ -209,4 +209,25 @@ theorem mostSpecific_some {reg : Registry} {ip : IP} {b : Prefix × Client}
   simp only [reduceCtorEq, or_false] at this
   exact ⟨this.1, this.2.1⟩
 
+/-- A well-formed `Add` that shares nothing is accepted. -/
+theorem Storage.add_accepted (s : Storage) (h : Inv s.index) (c : Client) (hv : c.validate = none)
+    (hfresh : ∀ d ∈ s.index.clients, d.uid ≠ c.uid) (hmac : ∀ m ∈ c.macs, macOK m = true)
+    (hfree : ∀ d ∈ s.index.clients, ∀ k, k ∈ c.idents → k ∉ d.idents) :
+    (s.add c).2 = .ok := by
+  have key : ∀ {κ : Type} {m : FMap κ} {ids : Client → List κ} (mk : κ → Ident),
+      MapInv m s.index.clients ids → (∀ d k, mk k ∈ d.idents ↔ k ∈ ids d) →
+      ∀ ks, (∀ k ∈ ks, mk k ∈ c.idents) → FreeFor m c.uid ks := by
+    intro κ m ids mk hm hmk ks hks k hk u hu
+    obtain ⟨d, hd, _, hkd⟩ := (hm k u).mp hu
+    exact absurd ((hmk d k).mpr hkd) (hfree d hd (mk k) (hks k hk))
+  have hnc : NoClash s.index c :=
+    { name := key Ident.name h.names (by intro d k; simp) [c.name] (by intro k hk; simp at hk; simp [hk])
+      cids := key Ident.cid h.cids (by intro d k; simp) c.cids (by intro k hk; simp [hk])
+      ips := key Ident.ip h.ips (by intro d k; simp) c.ips (by intro k hk; simp [hk])
+      subs := key Ident.subnet h.subs (by intro d k; simp) c.subnets (by intro k hk; simp [hk])
+      macs := key Ident.mac h.macs (by intro d k; simp) c.macs (by intro k hk; simp [hk]) }
+  have hcl := (h.clashes_spec c).1.mpr ⟨hnc, hmac⟩
+  unfold Storage.add
+  simp [hv, Index.client_eq_none.mpr hfresh, hcl]
+
 end AGH.C04
